@@ -690,3 +690,178 @@ pub fn count_ops(c: &Commit) -> (u64, u64, u64, u64) {
     }
     (sets, dels, resets, empties)
 }
+
+// ------------------------------------------------------------------------------------------------
+// deterministic boundary family (identical for every seed; generated before the random stream)
+// ------------------------------------------------------------------------------------------------
+
+/// what the substate-tier root of (E1, partition 6) must look like at the end (checked on the
+/// implementation's store, so that a boundary case that stops reaching its branch is noticed)
+#[derive(Clone, Debug, PartialEq)]
+pub enum Shape {
+    Any,
+    Leaf,
+    Internal(usize),
+    Absent,
+}
+
+pub struct Boundary {
+    pub class: &'static str,
+    pub commits: Vec<Commit>,
+    pub shape: Shape,
+}
+
+pub const E1: [u8; 2] = [0x12, 0x34];
+pub const E2: [u8; 2] = [0x12, 0x35]; // shares all but the last nibble with E1
+pub const E3: [u8; 2] = [0xf2, 0x34]; // differs in the first nibble (0x1 vs 0xf)
+
+fn k(x: u16) -> Vec<u8> {
+    x.to_be_bytes().to_vec()
+}
+fn v(x: u8) -> Vec<u8> {
+    vec![x, x ^ 0x5a, 7]
+}
+fn set(x: u16, val: u8) -> (Vec<u8>, Option<Vec<u8>>) {
+    (k(x), Some(v(val)))
+}
+fn del(x: u16) -> (Vec<u8>, Option<Vec<u8>>) {
+    (k(x), None)
+}
+/// one commit touching partition 6 of E1 with a delta
+fn d1(l: Vec<(Vec<u8>, Option<Vec<u8>>)>) -> Commit {
+    vec![(E1.to_vec(), vec![(6, PUpd::Delta(l))])]
+}
+fn dn(e: &[u8], p: u8, l: Vec<(Vec<u8>, Option<Vec<u8>>)>) -> Commit {
+    vec![(e.to_vec(), vec![(p, PUpd::Delta(l))])]
+}
+fn rs(e: &[u8], p: u8, l: Vec<(u16, u8)>) -> Commit {
+    vec![(e.to_vec(), vec![(p, PUpd::Reset(l.into_iter().map(|(x, y)| (k(x), v(y))).collect()))])]
+}
+
+pub fn boundary_family() -> Vec<Boundary> {
+    let mut f: Vec<Boundary> = vec![];
+    let mut add = |class: &'static str, commits: Vec<Commit>, shape: Shape| f.push(Boundary { class, commits, shape });
+
+    // --- a single leaf: create, overwrite, rewrite same value, delete
+    add("single_leaf_overwrite_delete", vec![d1(vec![set(0x0000, 1)]), d1(vec![set(0x0000, 2)]), d1(vec![set(0x0000, 2)]), d1(vec![del(0x0000)])], Shape::Absent);
+    add("single_leaf_root", vec![d1(vec![set(0xabcd, 1)])], Shape::Leaf);
+
+    // --- second key sharing 0,1,2,3 leading nibbles (nibble 0 against nibble 15), in two commits
+    //     (existing-leaf path) and in one commit (fresh-subtree path); then delete either key so that
+    //     the remaining leaf moves up that many levels
+    for (cls2, cls1, other) in [
+        ("split_share0_two_commits", "split_share0_one_commit", 0xf000u16),
+        ("split_share1_two_commits", "split_share1_one_commit", 0x0f00),
+        ("split_share2_two_commits", "split_share2_one_commit", 0x00f0),
+        ("split_share3_two_commits", "split_share3_one_commit", 0x000f),
+    ] {
+        add(cls2, vec![d1(vec![set(0x0000, 1)]), d1(vec![set(other, 2)])], Shape::Internal(if other == 0xf000 { 2 } else { 1 }));
+        add(cls1, vec![d1(vec![set(0x0000, 1), set(other, 2)])], Shape::Internal(if other == 0xf000 { 2 } else { 1 }));
+    }
+    for (cls_a, cls_b, other) in [
+        ("collapse_up1_delete_new", "collapse_up1_delete_old", 0xf000u16),
+        ("collapse_up2_delete_new", "collapse_up2_delete_old", 0x0f00),
+        ("collapse_up3_delete_new", "collapse_up3_delete_old", 0x00f0),
+        ("collapse_up4_delete_new", "collapse_up4_delete_old", 0x000f),
+    ] {
+        add(cls_a, vec![d1(vec![set(0x0000, 1)]), d1(vec![set(other, 2)]), d1(vec![del(other)])], Shape::Leaf);
+        add(cls_b, vec![d1(vec![set(0x0000, 1), set(other, 2)]), d1(vec![del(0x0000)])], Shape::Leaf);
+    }
+    // collapse where the moved leaf is replaced in the same commit / a sibling is added in the same commit
+    add("collapse_and_overwrite_survivor", vec![d1(vec![set(0x0000, 1), set(0x000f, 2)]), d1(vec![del(0x0000), set(0x000f, 3)])], Shape::Leaf);
+    add("delete_one_add_other_same_bucket", vec![d1(vec![set(0x0000, 1), set(0x000f, 2)]), d1(vec![del(0x0000), set(0x0007, 3)])], Shape::Internal(1));
+    add("delete_existing_leaf_add_same_bucket", vec![d1(vec![set(0x0000, 1)]), d1(vec![del(0x0000), set(0x000f, 3)])], Shape::Leaf);
+    add("delete_existing_leaf_add_two", vec![d1(vec![set(0x0000, 1)]), d1(vec![del(0x0000), set(0x000f, 3), set(0x00ff, 4)])], Shape::Internal(1));
+
+    // --- three keys: a deep pair and a sibling at various levels
+    add("three_keys_delete_deep_one", vec![d1(vec![set(0x0000, 1), set(0x000f, 2), set(0x00f0, 3)]), d1(vec![del(0x000f)])], Shape::Internal(1));
+    add("three_keys_delete_sibling_keeps_chain", vec![d1(vec![set(0x0000, 1), set(0x0001, 2), set(0xf000, 3)]), d1(vec![del(0xf000)])], Shape::Internal(1));
+    add("chain_collapses_to_root", vec![d1(vec![set(0x0000, 1), set(0x0001, 2), set(0xf000, 3)]), d1(vec![del(0xf000)]), d1(vec![del(0x0001)])], Shape::Leaf);
+    add("chain_child_collapses_next_to_sibling", vec![d1(vec![set(0x0000, 1), set(0x0001, 2), set(0xf000, 3)]), d1(vec![del(0x0001)])], Shape::Internal(2));
+    add("internal_child_replaced_by_leaf_and_sibling_deleted", vec![d1(vec![set(0x0000, 1), set(0x0001, 2), set(0xf000, 3)]), d1(vec![del(0x0001), del(0xf000)])], Shape::Leaf);
+
+    // --- child positions: all 16 children, extreme pairs, the 7/8 boundary
+    let all16: Vec<(Vec<u8>, Option<Vec<u8>>)> = (0..16u16).map(|n| set(n << 12, n as u8)).collect();
+    add("sixteen_children", vec![d1(all16.clone())], Shape::Internal(16));
+    add("sixteen_children_keep_last", vec![d1(all16.clone()), d1((0..15u16).map(|n| del(n << 12)).collect())], Shape::Leaf);
+    add("sixteen_children_keep_first_and_last", vec![d1(all16.clone()), d1((1..15u16).map(|n| del(n << 12)).collect())], Shape::Internal(2));
+    add("sixteen_children_delete_all", vec![d1(all16.clone()), d1((0..16u16).map(|n| del(n << 12)).collect())], Shape::Absent);
+    for (cls, a, b) in [("children_0_1", 0x0000u16, 0x1000u16), ("children_7_8", 0x7000, 0x8000), ("children_14_15", 0xe000, 0xf000), ("children_3_4", 0x3000, 0x4000), ("children_11_12", 0xb000, 0xc000)] {
+        add(cls, vec![d1(vec![set(a, 1), set(b, 2)])], Shape::Internal(2));
+    }
+    add("only_internal_child_at_15", vec![d1(vec![set(0xf000, 1), set(0xf00f, 2)])], Shape::Internal(1));
+    add("only_internal_child_at_0_second_level_15", vec![d1(vec![set(0x0f00, 1), set(0x0f0f, 2)])], Shape::Internal(1));
+
+    // --- replace the whole content in one commit
+    add("delete_all_in_one_commit", vec![d1(vec![set(0x0000, 1), set(0xf000, 2)]), d1(vec![del(0x0000), del(0xf000)])], Shape::Absent);
+    add("delete_all_add_one_leaf", vec![d1(vec![set(0x0000, 1), set(0xf000, 2)]), d1(vec![del(0x0000), del(0xf000), set(0x7000, 3)])], Shape::Leaf);
+    add("delete_all_add_two_same_nibble", vec![d1(vec![set(0x0000, 1), set(0xf000, 2)]), d1(vec![del(0x0000), del(0xf000), set(0x7000, 3), set(0x7001, 4)])], Shape::Internal(1));
+    add("delete_all_add_two_other_nibbles", vec![d1(vec![set(0x0000, 1), set(0xf000, 2)]), d1(vec![del(0x0000), del(0xf000), set(0x7000, 3), set(0x8000, 4)])], Shape::Internal(2));
+
+    // --- deletes of keys that do not exist
+    add("delete_missing_on_leaf_root_other_bucket", vec![d1(vec![set(0x0000, 1)]), d1(vec![del(0xf000)])], Shape::Leaf);
+    add("delete_missing_on_leaf_root_same_bucket", vec![d1(vec![set(0x0000, 1)]), d1(vec![del(0x000f)])], Shape::Leaf);
+    add("delete_missing_in_internal", vec![d1(vec![set(0x0000, 1), set(0xf000, 2)]), d1(vec![del(0x7000), del(0x0001)])], Shape::Internal(2));
+    add("delete_missing_on_empty", vec![d1(vec![del(0x0000)])], Shape::Absent);
+
+    // --- empty updates
+    add("empty_delta_on_leaf_root", vec![d1(vec![set(0x0000, 1)]), d1(vec![])], Shape::Leaf);
+    add("empty_delta_on_internal_root", vec![d1(vec![set(0x0000, 1), set(0xf000, 2)]), d1(vec![])], Shape::Internal(2));
+    add("empty_delta_on_missing_partition", vec![d1(vec![set(0x0000, 1)]), dn(&E1, 7, vec![])], Shape::Leaf);
+    add("empty_delta_first_commit", vec![d1(vec![]), d1(vec![set(0x0000, 1)])], Shape::Leaf);
+    add("empty_commit_after_data", vec![d1(vec![set(0x0000, 1)]), vec![], vec![], d1(vec![set(0x0001, 2)])], Shape::Internal(1));
+    add("entity_without_partitions", vec![d1(vec![set(0x0000, 1)]), vec![(E1.to_vec(), vec![])], vec![(E2.to_vec(), vec![])]], Shape::Leaf);
+
+    // --- a tier becomes empty: the leaf above must go; and comes back
+    add("last_substate_of_partition_other_partition_stays", vec![vec![(E1.to_vec(), vec![(6, PUpd::Delta(vec![set(0x0000, 1)])), (7, PUpd::Delta(vec![set(0x0000, 2)]))])], d1(vec![del(0x0000)])], Shape::Absent);
+    add("last_substate_of_entity_other_entity_stays", vec![d1(vec![set(0x0000, 1)]), dn(&E2, 6, vec![set(0x0000, 2)]), d1(vec![del(0x0000)])], Shape::Absent);
+    add("last_substate_of_database", vec![d1(vec![set(0x0000, 1)]), d1(vec![del(0x0000)])], Shape::Absent);
+    add("database_emptied_then_refilled", vec![d1(vec![set(0x0000, 1)]), d1(vec![del(0x0000)]), d1(vec![set(0x0000, 3)]), dn(&E3, 6, vec![set(0x0001, 4)])], Shape::Leaf);
+    add("partition_recreated_after_delete", vec![vec![(E1.to_vec(), vec![(6, PUpd::Delta(vec![set(0x0000, 1)])), (7, PUpd::Delta(vec![set(0x0000, 2)]))])], d1(vec![del(0x0000)]), d1(vec![set(0x000f, 5)])], Shape::Leaf);
+    add("two_partitions_emptied_in_one_commit", vec![vec![(E1.to_vec(), vec![(6, PUpd::Delta(vec![set(0x0000, 1)])), (7, PUpd::Delta(vec![set(0x0000, 2)]))])], vec![(E1.to_vec(), vec![(6, PUpd::Delta(vec![del(0x0000)])), (7, PUpd::Delta(vec![del(0x0000)]))])]], Shape::Absent);
+    add("one_partition_emptied_one_created_same_commit", vec![d1(vec![set(0x0000, 1)]), vec![(E1.to_vec(), vec![(6, PUpd::Delta(vec![del(0x0000)])), (7, PUpd::Delta(vec![set(0x0000, 2)]))])]], Shape::Absent);
+
+    // --- partition reset
+    add("reset_to_empty", vec![d1(vec![set(0x0000, 1), set(0xf000, 2)]), rs(&E1, 6, vec![])], Shape::Absent);
+    add("reset_to_values", vec![d1(vec![set(0x0000, 1), set(0xf000, 2)]), rs(&E1, 6, vec![(0x0000, 9), (0x000f, 8)])], Shape::Internal(1));
+    add("reset_to_same_values", vec![d1(vec![set(0x0000, 1), set(0xf000, 2)]), rs(&E1, 6, vec![(0x0000, 1), (0xf000, 2)])], Shape::Internal(2));
+    add("reset_missing_partition_with_values", vec![rs(&E1, 6, vec![(0x0000, 1)])], Shape::Leaf);
+    add("reset_missing_partition_empty", vec![rs(&E1, 6, vec![]), d1(vec![set(0x0000, 1)])], Shape::Leaf);
+    add("reset_then_delta", vec![d1(vec![set(0x0000, 1), set(0xf000, 2)]), rs(&E1, 6, vec![(0x7000, 3)]), d1(vec![set(0x7001, 4), del(0x7000)])], Shape::Leaf);
+    add("delta_then_reset_then_reset", vec![d1(vec![set(0x0000, 1)]), rs(&E1, 6, vec![(0x0000, 2), (0x0001, 3)]), rs(&E1, 6, vec![(0xf000, 4)])], Shape::Leaf);
+    add("reset_deep_tree", vec![d1(vec![set(0x0000, 1), set(0x0001, 2), set(0x0010, 3), set(0x0100, 4), set(0x1000, 5)]), rs(&E1, 6, vec![(0x0000, 1)])], Shape::Leaf);
+    add("reset_one_partition_delta_other", vec![vec![(E1.to_vec(), vec![(6, PUpd::Delta(vec![set(0x0000, 1)])), (7, PUpd::Delta(vec![set(0x0000, 2)]))])], vec![(E1.to_vec(), vec![(7, PUpd::Reset(vec![])), (6, PUpd::Delta(vec![set(0x0001, 3)]))])]], Shape::Internal(1));
+
+    // --- the lower tier is found through an old payload version
+    add("untouched_for_three_commits_then_touched", vec![d1(vec![set(0x0000, 1)]), dn(&E3, 6, vec![set(0x0000, 2)]), dn(&E3, 6, vec![set(0x0001, 3)]), dn(&E3, 7, vec![set(0x0001, 3)]), d1(vec![set(0x0001, 4)])], Shape::Internal(1));
+    add("sibling_entity_sharing_all_but_last_nibble", vec![d1(vec![set(0x0000, 1)]), dn(&E2, 6, vec![set(0x0000, 2)]), d1(vec![set(0x000f, 3)]), dn(&E2, 6, vec![del(0x0000)])], Shape::Internal(1));
+    add("entities_first_nibble_1_and_15", vec![d1(vec![set(0x0000, 1)]), dn(&E3, 6, vec![set(0x0000, 2)]), dn(&E3, 6, vec![del(0x0000)])], Shape::Leaf);
+
+    // --- partition numbers at the corners of the 2-nibble partition tier
+    add("partition_numbers_corners", vec![vec![(E1.to_vec(), vec![(0x00, PUpd::Delta(vec![set(0x0000, 1)])), (0xff, PUpd::Delta(vec![set(0x0000, 2)])), (0x0f, PUpd::Delta(vec![set(0x0000, 3)])), (0xf0, PUpd::Delta(vec![set(0x0000, 4)])), (6, PUpd::Delta(vec![set(0x0000, 5)]))])], vec![(E1.to_vec(), vec![(0xff, PUpd::Delta(vec![del(0x0000)])), (0x00, PUpd::Reset(vec![]))])]], Shape::Leaf);
+
+    // --- value and key sizes (hash block boundaries; the 32-byte key is the length at which leaf and
+    //     internal pre-images have the same size)
+    let val = |n: usize| -> Vec<u8> { (0..n).map(|i| (i * 7 + 3) as u8).collect() };
+    add("value_sizes", vec![d1(vec![(k(0x0000), Some(val(0))), (k(0x0001), Some(val(1))), (k(0x0002), Some(val(127))), (k(0x0003), Some(val(128))), (k(0x0004), Some(val(129))), (k(0x0005), Some(val(300)))])], Shape::Internal(1));
+    add("sort_key_32_bytes", vec![dn(&E1, 6, vec![(val(32), Some(v(1)))]), dn(&E1, 6, vec![({ let mut x = val(32); x[31] ^= 1; x }, Some(v(2)))])], Shape::Internal(1));
+    add("sort_key_1_byte_and_35_bytes_partitions", vec![vec![(E1.to_vec(), vec![(6, PUpd::Delta(vec![(vec![0x00], Some(v(1))), (vec![0xff], Some(v(2))), (vec![0x0f], Some(v(3)))])), (7, PUpd::Delta(vec![(val(35), Some(v(4)))]))])]], Shape::Internal(2));
+    add("entity_key_50_bytes", vec![vec![(val(50), vec![(6, PUpd::Delta(vec![set(0x0000, 1)]))])], vec![({ let mut x = val(50); x[49] ^= 0x01; x }, vec![(6, PUpd::Delta(vec![set(0x0000, 2)]))])], vec![(val(50), vec![(6, PUpd::Delta(vec![del(0x0000)]))])]], Shape::Any);
+    f
+}
+
+/// the substate-tier root of (E1, partition 6) among the reachable nodes
+pub fn shape_of(reach: &[(NodeKey, TreeNode)]) -> Shape {
+    let mut path = nibbles_of_bytes(&E1);
+    path.extend_from_slice(&[5, 15, 0, 6, 5, 15]);
+    for (key, node) in reach {
+        if key.1 == path {
+            return match node {
+                TreeNodeV1::Leaf(_) => Shape::Leaf,
+                TreeNodeV1::Internal(i) => Shape::Internal(i.children.len()),
+                TreeNodeV1::Null => Shape::Absent,
+            };
+        }
+    }
+    Shape::Absent
+}
